@@ -1017,7 +1017,9 @@ def canon_key(key):
     if kind in _MSG_KINDS or kind.startswith("assert:Overflow") or kind.startswith("assert:Division") or kind.startswith("assert:Remainder"):
         return key
     # `..` of a range is not a field access: keep it apart while blanking identifiers
-    parts[-1] = _IDENT.sub("$", parts[-1].replace("..", " \u2025 ")).replace(" \u2025 ", "..")
+    # a pattern binding and the payload projection it stands for read the same (`token_str` / `_tmp@Some.0`)
+    d_ = re.sub(r"(\w)(?:@\w+(?:\.\d+)*)+", r"\1", parts[-1])
+    parts[-1] = _IDENT.sub("$", d_.replace("..", " \u2025 ")).replace(" \u2025 ", "..")
     return " # ".join(parts)
 
 
@@ -1085,12 +1087,21 @@ def run(ctx, res, layers, floor_fns, floor_sites, extra_roots=(), label="PANIC-I
             continue
         # a reviewed site whose local variable was renamed: same function, kind and shape, same guards
         ck = canon_key(k)
+        # the same site described through named locals (`let n = x.len(); &s[0..n]` reads as `s[0..len(x)]`)
+        if not hasattr(f, "_deep_sites"):
+            PN.DEEP = True
+            try:
+                f._deep_sites = {(s2.bb, s2.kind): s2.detail for s2 in PN.sites_of(f)}
+            finally:
+                PN.DEEP = False
+        dd_ = f._deep_sites.get((s.bb, s.kind))
+        ck2 = canon_key(k[:len(k) - len(s.detail)] + dd_) if dd_ is not None and k.endswith(s.detail) else ck
         alt = None
         if True:
             for rk, rrow in residue.items():
                 if rk == k:
                     continue
-                if rk.split(" # ", 1)[0] != f.path or canon_key(rk) != ck:
+                if rk.split(" # ", 1)[0] != f.path or canon_key(rk) not in (ck, ck2):
                     continue
                 if rk in live_keys:
                     continue
